@@ -488,8 +488,14 @@ func (a *Analysis) run(n Node) {
 					}
 					continue
 				}
-				a.site(ctx, ins, callee, st, true)
+				cs := a.site(ctx, ins, callee, st, true)
 				k := a.tb.child(ctx, ins, callee)
+				if k.catching {
+					// entering an exception-catching frame is itself recorded as an event
+					// ("frame"): what happens inside may be cut short by a caught exception
+					a.markEffect(cs, "frame")
+					a.execEffect(st, cs)
+				}
 				a.push(Node{k, callee.Blocks[0], 0}, ins, st)
 				if k.catching {
 					// an exception anywhere inside is caught by the frame: the caller
@@ -641,7 +647,7 @@ func (a *Analysis) eqLit(x, y *Term) int32 {
 // isCarrier: boolean terms that can carry a correlation between two tests.
 func isCarrier(t *Term) bool {
 	switch t.Op {
-	case "phi", "ret", "assertok", "haskey", "icall", "opaque", "read", "ext", "field", "index", "param", "iterval", "elem", "load", "extract":
+	case "phi", "ret", "assertok", "haskey", "icall", "opaque", "read", "ext", "field", "index", "param", "iterval", "iternext", "elem", "load", "extract":
 		return true
 	case "call":
 		switch t.Name {
@@ -921,6 +927,17 @@ func (a *Analysis) Effects() []*Site {
 	var out []*Site
 	for _, s := range a.effects {
 		if s.In != nil {
+			out = append(out, s)
+		}
+	}
+	return out
+}
+
+// RealEffects: effects without the pseudo-effect "entered a catching frame".
+func (a *Analysis) RealEffects() []*Site {
+	var out []*Site
+	for _, s := range a.Effects() {
+		if s.Effect != "frame" {
 			out = append(out, s)
 		}
 	}
